@@ -289,6 +289,7 @@ CORE = [
     "</pre>", "[http://x.org t]", "http://x.org", "\n----", "<!-- c -->",
     "{{{1}}}", "[", "]", "[[", "]]", "{{", "}}", "<ref>", "</ref>", "__TOC__",
     "<section begin=x/>", "&amp;", "-{", "}-", "\n ", "<li>", "</div>",
+    "</ b>", "<b >",
 ]
 
 
